@@ -40,6 +40,11 @@ def main() -> int:
         print(f"no check for {prop}", file=sys.stderr)
         return 2
     ctx = vlib.Ctx(prop, a.tier, seed)
+    if not a.replay:
+        import glob
+
+        for old in glob.glob(os.path.join(vlib.VERIF, "replays", prop, "*.json")):
+            os.remove(old)
     try:
         if a.replay:
             replay = json.load(open(a.replay))
